@@ -448,7 +448,7 @@ pub fn wire_type_of(n: u8) -> Option<WireType> {
     WireType::try_from(n as u64).ok()
 }
 
-pub const GEN_MSGS: [&str; 8] = ["AllScalars", "Small", "Maps", "Choice", "Node", "Peer", "Envelope", "GroupMsg"];
+pub const GEN_MSGS: [&str; 9] = ["AllScalars", "Small", "Maps", "Choice", "Node", "Peer", "Envelope", "Holder", "GroupMsg"];
 
 pub fn decode_gen<B: Buf>(name: &str, buf: B, length_delimited: bool) -> Result<(), DecodeError> {
     use crate::pgen::pcorpus_gen::pcorpus as g;
@@ -469,6 +469,7 @@ pub fn decode_gen<B: Buf>(name: &str, buf: B, length_delimited: bool) -> Result<
         "Node" => go!(g::Node),
         "Peer" => go!(g::Peer),
         "Envelope" => go!(g::Envelope),
+        "Holder" => go!(g::Holder),
         "GroupMsg" => go!(GroupMsg),
         _ => Err(DecodeError::new("harness:unknown message")),
     }
